@@ -10,7 +10,7 @@ def run(tier, v, wd, replay=None):
         every = {"VERIF_RS_EVERY": "1"}
     else:
         cfgs = [("RuleScan_single.cfg", {}), ("RuleScan_c2.cfg", {}), ("RuleScan_r2.cfg", {}),
-                ("RuleScan_sim.cfg", dict(simulate={"num": 3000}, depth=14, workers=8))]
+                ("RuleScan_sim.cfg", dict(simulate={"num": 3000}, depth=14, workers=8, max_emit=200000))]
         every = {}
     vec = generate(tier, v, wd, cfgs)
     repo = vlib.scratch_repo(wd, "stub")
@@ -23,5 +23,5 @@ def run(tier, v, wd, replay=None):
                                  "2-condition program over the reduced universe; ScanRefines/KernRefines/OptimizePreserves/LowerWF hold in every state. "
                                  "Each program is rendered to dae configuration text (aliases and key spellings chosen by seed) and compiled by the "
                                  "production pipeline without optimisers; ControlPlane.Route is compared with the spec's Decide for every packet.")
-    v.assumptions += ["geodata (geoip:/geosite:/ext:) expansion not exercised (no .dat files offline)",
+    v.assumptions += ["geosite: values are expanded from a generated geosite.dat (three lists incl. an attribute filter); geoip:/ext: files are not exercised",
                       "regex domain patterns restricted to the structured subset of DomainOps.tla"]
